@@ -11,9 +11,11 @@ The rewrite is bottom-up: children first, then the node. A binary node one of wh
 rewritten) operands is a reference to time — `isTimeRef`: a `*VarRef` with
 `strings.ToLower(Val) == "time"`, whatever its type annotation, the test `conditionExpr` uses —
 becomes `true`; everything else, calls included, is kept (the arguments of a call are visited);
-the result is printed and parsed again.
+the result is printed — in parentheses when its top node is an `OR`, the one operator that binds
+looser than the `AND` the caller appends — and parsed again.
 (Before the fixes 51161c4 / 86fc254 of /repo the test was "the left operand prints as `time`",
-and every call became `true`.)
+and every call became `true`; before the fix of the finding C18-top-level-or-captures-the-window
+the text was never parenthesised, so `a OR b AND <window>` re-parsed as `a OR (b AND <window>)`.)
 -/
 namespace InfluxQL
 open Gen
@@ -54,11 +56,24 @@ def boundsText (w : Window) : Str :=
   ['t', 'i', 'm', 'e', ' ', '>', '=', ' ', '\''] ++ formatRFC3339Nano w.start ++
   ['\'', ' ', 'A', 'N', 'D', ' ', 't', 'i', 'm', 'e', ' ', '<', ' ', '\''] ++ formatRFC3339Nano w.stop ++ ['\'']
 
+/-- The top node is an `OR`: `b, ok := n.(*BinaryExpr); ok && b.Op == OR`. `OR` is the only operator
+whose precedence is below that of `AND` (`Token.Precedence`; `C18.gen_only_or_binds_looser_than_and`
+checks it on the generated table). -/
+def topIsOr : Expr → Bool
+  | .binary op _ _ => decide (op = .OR)
+  | _ => false
+
+/-- The string `rewriteWithoutTimeDimensions` returns: the rewritten condition printed, in
+parentheses exactly when its top node is an `OR` (`"(" + n.String() + ")"`). -/
+def rewrittenText (tbl : List (Char × Char)) (c : Expr) : Str :=
+  let n := rewriteNoTime tbl c
+  if topIsOr n then ['('] ++ n.print ++ [')'] else n.print
+
 /-- The text handed to the parser. -/
 def setTimeRangeText (tbl : List (Char × Char)) (cond : Option Expr) (w : Window) : Str :=
   match cond with
   | none => boundsText w
-  | some c => (rewriteNoTime tbl c).print ++ [' ', 'A', 'N', 'D', ' '] ++ boundsText w
+  | some c => rewrittenText tbl c ++ [' ', 'A', 'N', 'D', ' '] ++ boundsText w
 
 def nilRCtx (fa : FloatArith) : RCtx := { valuer := none, fa := fa }
 
